@@ -126,13 +126,13 @@ func (cr *concRun) checkAudit() {
 		}
 		if a.DrainStatus == 0 && a.WriteBufferSize == 0 {
 			for _, p := range a.Problems {
-				cr.fail(P("C05", "C14"), ruleOf(p), -1, "quiescence without CleanUp: %s", p)
+				cr.fail(auditProps(p, "C05", "C14"), ruleOf(p), -1, "quiescence without CleanUp: %s", p)
 			}
 		}
 	}
 	if a := cr.auditFinal; a != nil {
 		for _, p := range a.Problems {
-			cr.fail(P("C05"), ruleOf(p), -1, "after CleanUp: %s", p)
+			cr.fail(auditProps(p, "C05"), ruleOf(p), -1, "after CleanUp: %s", p)
 		}
 		if a.InFlight != 0 {
 			cr.fail(P("C08"), "load.inflight-left", -1, "%d in-flight call records left at quiescence", a.InFlight)
@@ -141,6 +141,17 @@ func (cr *concRun) checkAudit() {
 	if cr.freshLoadTried && !cr.freshLoadOK {
 		cr.fail(P("C08"), "load.no-fresh-load", -1, "a Get of an absent key after quiescence did not invoke the loader")
 	}
+}
+
+// auditProps: a table node the policies do not know, or a node that is no longer alive and still
+// linked, is a write event that never reached the policies - which is also C16's last sentence
+// ("consequently no cache write is forgotten by the eviction and expiration policies").
+func auditProps(problem string, base ...string) []string {
+	switch ruleOf(problem) {
+	case "audit.table-node-unlinked", "audit.deque-node-not-alive", "audit.table-node-not-in-wheel":
+		return P(append(base, "C16")...)
+	}
+	return P(base...)
 }
 
 func ruleOf(problem string) string {
